@@ -26,7 +26,7 @@ META = {
                   "Class x slot tables are selector-enumerated. Open finding C03-frac7 excludes timestamps with 7 or more fractional digits.",
     "technique": "CrossHair-driven enumeration of (class, slot, legal value class) through the real strict parser with value preservation oracle, "
                  "SMT slot-model comparison, AST-to-SMT interpretation of timestamp parsing; counterexamples replayed natively",
-    "outside": ["documents valid only through co-constraint interplay", "language-content contents", "patterns other than one fixed literal"],
+    "outside": ["documents valid only through co-constraint interplay", "language-content contents", "STIX pattern texts other than one fixed literal"],
     "assumptions": [MODEL],
 }
 
@@ -46,6 +46,8 @@ def obligations(tier):
     obls.append(CH("granular_markings_deep_selectors", H, "deep_selectors", t, mode="E1s", functions=F + ["stix2.markings.utils.validate", "stix2.markings.utils._evaluate_expression",
                    "stix2.markings.utils.iterpath"], bounds="7 documents (12-element lists, 11 embedded objects, sibling dictionary keys that extend one another, nested "
                    "extensions, 2.0 observed-data members) x every JSON path of the document as the single selector, marking-ref and lang, alone and in a bundle"))
+    obls.append(CH("indicator_pattern_languages", H, "indicator_pattern_languages", t, mode="E1s", functions=F + ["stix2.v21.sdo.Indicator.__init__"],
+                   bounds="6 pattern languages of the vocabulary x pattern_version given or not x alone / in a bundle: accepted, preserved, nothing added but the STIX pattern version"))
     obls.append(JOB("timestamp_texts_accepted", "props.j_time", "job_accepts", 600, functions=F[5:6], finding="C03-frac7",
                     bounds="every canonical timestamp text with no fraction or 1..9 fractional digits, symbolic fields and digits, 3x2 precision settings"))
     return obls
